@@ -163,7 +163,9 @@ def history_tier(ck, violation, label, crys, chem, jn, cut, jumps, ops, nsites, 
     Nmax = 3
     universe = sc.reach_bruteforce(jumps, Nmax, nsites, True)
     info0 = {"crystal": repr(crys), "label": label, "chem": chem, "cutoff": cut, "tier": "history"}
-    fixed = [[("gen", 2, False), ("gen", 2, True), ("gen", 2, False), ("gen", 1, True), ("copy",), ("gen", 1, False)],
+    fixed = [[("gen", 0, True), ("add", 2, False), ("gen", 2, True), ("gen", 2, False)],      # empty set adopts the other's flag
+             [("gen", 0, False), ("add", 1, True), ("gen", 1, False), ("copy",), ("gen", 1, True)],
+             [("gen", 2, False), ("gen", 2, True), ("gen", 2, False), ("gen", 1, True), ("copy",), ("gen", 1, False)],
              [("gen", 3, True), ("gen", 1, True)],
              [("gen", 1, True), ("gen", 2, True), ("gen", 3, True), ("gen", 1, False), ("gen", 2, False)],
              [("gen", 2, True), ("gen", 1, False), ("copy",), ("add", 1, True), ("diff",), ("gen", 3, False), ("gen", 0, True), ("gen", 2, True)]]
